@@ -30,8 +30,30 @@ def bounds(tier):
     return {"rates": len(models.rate_family()), "deltas": list(DELTAS), "dts": list(DTS), "backends": ["numpy", "c", "jax"]}
 
 
+def pair_specs():
+    """two-state models: a state whose guard may be skipped / whose rate is degenerate, next to a probe state whose g crosses 0 and delta;
+    both name orders, so that either state comes first in the generator's loop"""
+    n, v = L.num, L.var
+    U = {"gate(1-u)/p": lambda u: L.bin_("/", L.bin_("-", n("1"), v(u)), v("p")), "log(u)": lambda u: L.call("log", v(u)), "1/u": lambda u: L.bin_("/", n("1"), v(u)),
+         "2u+1": lambda u: L.bin_("+", L.bin_("*", n("2"), v(u)), n("1")), "zero": lambda u: n("0"), "only-in-condition": lambda u: L.cond(L.rel("Gt", v(u), n("0")), n("1"), L.neg(n("1"))),
+         "u*u": lambda u: L.bin_("*", v(u), v(u)), "-u/4": lambda u: L.bin_("/", L.neg(v(u)), n("4"))}
+    W = {"p*w+1": lambda w, u: L.bin_("+", L.bin_("*", v("p"), v(w)), n("1")), "w*w": lambda w, u: L.bin_("*", v(w), v(w)), "cos(w)/p": lambda w, u: L.bin_("/", L.call("cos", v(w)), v("p")),
+         "c-p*w*w": lambda w, u: L.bin_("-", n("1.5"), L.bin_("*", L.bin_("*", v("p"), v(w)), v(w))), "-w/(1+u*u)*p": lambda w, u: L.bin_("*", L.bin_("/", L.neg(v(w)), L.bin_("+", n("1"), L.bin_("*", v(u), v(u)))), v("p"))}
+    out = []
+    for un, uf in U.items():
+        for wn, wf in W.items():
+            for u, w in (("a", "z"), ("z", "a")):
+                sp = models.spec([(u, n("1.0")), (w, n("2.0"))], [("p", n("0.5"))], [(f"d{u}_dt", uf(u)), (f"d{w}_dt", wf(w, u))])
+                out.append((f"pair|{un}|{wn}|{u}{w}", sp))
+    return out
+
+
 def items(tier):
     its = []
+    for key, sp in pair_specs():
+        for delta in DELTAS:
+            its.append({"key": f"{key}|delta={delta!r}", "kind": "rate", "name": key, "spec": sp, "delta": delta, "tier": tier,
+                        "sample": {"rate": key, "delta": delta, "text": models.spec_text(sp)}})
     for key, sp in models.rate_specs():
         for delta in DELTAS:
             its.append({"key": f"{key}|delta={delta!r}", "kind": "rate", "name": key, "spec": sp, "delta": delta, "tier": tier,
@@ -40,9 +62,13 @@ def items(tier):
 
 
 def grid(ref, delta):
+    if ref.states[0] in ("a", "z"):
+        import itertools as _it
+        vs = sorted({-2.0, -0.5, 0.0, 1.0, 3.0, 0.5, delta * (1 - 2.0 ** -10), delta * (1 + 2.0 ** -10), -delta * (1 + 2.0 ** -10)})
+        return [dict(zip(["t"] + list(ref.states) + ["p"], tup)) for tup in _it.product((0.0,), vs, vs, (-2.0, -0.5, 0.5, 1.0, delta * (1 + 2.0 ** -10)))]
     vals = sorted(set(E.V5) | {delta * (1 - 2.0 ** -10), delta * (1 + 2.0 ** -10), -delta * (1 + 2.0 ** -10), 0.5, 1.0} if True else ())
     import itertools
-    names = ["t", "x", "y", "p"]
+    names = ["t"] + list(ref.states) + ["p"]
     pts = []
     for tup in itertools.product((0.0, 0.5), E.V5 + (0.5,), vals, vals):
         pts.append(dict(zip(names, tup)))
@@ -103,16 +129,17 @@ def run_item(item):
                     got = out[sidx[st]]
                     outcomes.add((st, abs(g) > delta))
                     vals.add(round(v, 9))
+                    sfx = f"|state={st}" if key.startswith("pair|") else ""
                     if not math.isfinite(got):
-                        bad.setdefault("non-finite", (q, f"{st}: got {got!r} although f={fv!r} and g={g!r} are finite (expected {v!r})"))
+                        bad.setdefault("non-finite" + sfx, (q, f"{st}: got {got!r} although f={fv!r} and g={g!r} are finite (expected {v!r})"))
                     elif not abs(got - v) <= tl:
                         # diagnosis: is the other branch of the guard what was returned?
                         f0 = ref.value(evl, f"d{st}_dt")[0]
                         other = pt[st] + dt * f0 if abs(g) > delta else (pt[st] + f0 / g * (math.exp(g * dt) - 1.0) if g != 0 else float("nan"))
                         if other == other and abs(got - other) <= max(tl, 1e-9 * max(abs(other), 1.0)):
-                            bad.setdefault("delta-not-honoured", (q, f"{st}: |g|={abs(g)!r} {'>' if abs(g) > delta else '<='} delta but the {'Euler' if abs(g) > delta else 'Rush-Larsen'} branch was returned: got {got!r}, expected {v!r}"))
+                            bad.setdefault("delta-not-honoured" + sfx, (q, f"{st}: |g|={abs(g)!r} {'>' if abs(g) > delta else '<='} delta but the {'Euler' if abs(g) > delta else 'Rush-Larsen'} branch was returned: got {got!r}, expected {v!r}"))
                         else:
-                            bad.setdefault("wrong-value", (q, f"{st}: got {got!r}, expected {v!r} (f={fv!r}, g={g!r}, tol={tl:.3g})"))
+                            bad.setdefault("wrong-value" + sfx, (q, f"{st}: got {got!r}, expected {v!r} (f={fv!r}, g={g!r}, tol={tl:.3g})"))
             res["traces"] += 1
         for cls, (pt, msg) in sorted(bad.items()):
             fail(cls, backend, f"{msg} at {pt}", {"point": pt})
